@@ -14,10 +14,61 @@ PARSER_UNITS = {"u_pcore", "u_grammar", "u_tree", "u_input", "u_mls", "u_kind", 
 _cache = {}
 
 
+# units whose obligations have committed replay scripts (`<script> <compiler-binary>`: exit 1 = the defect shows on the real code)
+COMPILER_REPLAYS = {
+    "u_diagord": ["replay/c13/missing_methods/run.sh"],
+    "u_occurs": ["replay/c04/occurs/run.sh"],
+    "u_tmono": ["replay/c07/run.sh"],
+}
+
+
+def compiler_replay(root, rec):
+    """build the compiler of the tree under check in a scratch directory and run the unit's committed replay scripts against it"""
+    key = "compiler:" + rec.get("module", "")
+    if key in _cache:
+        return _cache[key]
+    repo = os.environ.get("VERIF_REPO", "/repo")
+    scratch = tempfile.mkdtemp(prefix="goml-replay-")
+    res = None
+    try:
+        dst = os.path.join(scratch, "repo")
+        os.makedirs(dst)
+        shutil.copytree(os.path.join(repo, "crates"), os.path.join(dst, "crates"), ignore=shutil.ignore_patterns("target"))
+        for fn in ("Cargo.toml", "Cargo.lock"):
+            src = os.path.join(repo, fn)
+            if not os.path.exists(src):
+                src = os.path.join("/repo", fn)
+            shutil.copy(src, os.path.join(dst, fn))
+        env = dict(os.environ, CARGO_NET_OFFLINE="true", CARGO_TARGET_DIR=os.path.join(scratch, "target"))
+        b = subprocess.run(["cargo", "build", "-q", "-p", "compiler", "--offline"], cwd=dst, env=env, capture_output=True, text=True, timeout=600)
+        binp = os.path.join(scratch, "target", "debug", "compiler")
+        if b.returncode == 0 and os.path.exists(binp):
+            hits = []
+            for sc in COMPILER_REPLAYS[rec["module"]]:
+                try:
+                    r = subprocess.run([os.path.join(root, sc), binp], capture_output=True, text=True, timeout=180)
+                except subprocess.TimeoutExpired:
+                    continue
+                if r.returncode == 1:
+                    hits.append({"kind": "replay-script", "script": sc, "input_debug_escaped": (r.stdout + r.stderr)[-1500:]})
+            if hits:
+                res = {"how": "committed replay script(s) run against the compiler built from a scratch copy of the tree under check",
+                       "inputs_tried": len(COMPILER_REPLAYS[rec["module"]]), "witnesses": hits}
+    except Exception as e:
+        res = None
+        _cache["error"] = repr(e)
+    finally:
+        shutil.rmtree(scratch, ignore_errors=True)
+    _cache[key] = res
+    return res
+
+
 def search(root, prop, rec, f):
-    if rec.get("module") not in PARSER_UNITS or prop not in ("C04", "C12"):
-        return None
     if os.environ.get("VERIF_NO_REPLAY_SEARCH"):
+        return None
+    if rec.get("module") in COMPILER_REPLAYS:
+        return compiler_replay(root, rec)
+    if rec.get("module") not in PARSER_UNITS or prop not in ("C04", "C12"):
         return None
     if "result" in _cache:
         return _cache["result"]
@@ -67,6 +118,10 @@ def replay(d):
     w = d.get("failing_input")
     if not w:
         print("no executable witness recorded for this obligation; re-run the check to re-verify it")
+        return 1
+    if any(x.get("kind") == "replay-script" for x in w.get("witnesses", [])):
+        for x in w["witnesses"]:
+            print(f"witness: /verif/{x['script']} <compiler binary of the tree>  ->\n{x['input_debug_escaped']}")
         return 1
     for x in w.get("witnesses", []):
         print(f"witness ({x['kind']}): parser::parse on {x['input_debug_escaped']}")
